@@ -1,0 +1,13 @@
+//go:build verif
+
+package circuit
+
+import "time"
+
+// VerifSnapshot returns the breaker's internal state under its mutex without
+// evaluating the open -> half-open transition. Simulation builds only.
+func (b *Breaker) VerifSnapshot() (State, Counts, int, time.Time) {
+	b.mutex.Lock()
+	defer b.mutex.Unlock()
+	return b.state, b.counts, b.generation, b.backoffExpires
+}
